@@ -223,14 +223,20 @@ def pipeline(c, pid, explores, asfounds=(), prefer=(), budget=12000, rand=None, 
              nontrivial=None):
     """explores: [(cfgname, auth)]; asfounds: [(cfgname, [invariants expected to fail])];
     rand: dict for a {"rand": ...} line appended to every block; extra: [(cfg, auth, lines)]."""
+    import time
+    t0 = time.time()
+    tm = {}
     drv = c.build("dpadv")
+    tm["build"] = round(time.time() - t0, 1)
     if c.replay:
         replay(c, pid)
         return None
     blocks, total = [], 0
     per = max(1, budget // max(1, len(explores)))
     for (name, auth) in explores:
+        t1 = time.time()
         cfg, scn = explore(c, name)
+        tm["mc:" + name] = round(time.time() - t1, 1)
         total += len(scn)
         sel = select([(name, s) for s in scn], c.seed, per, prefer)
         lines = [{"p": s["p"]} for (_, s) in sel]
@@ -240,13 +246,20 @@ def pipeline(c, pid, explores, asfounds=(), prefer=(), budget=12000, rand=None, 
         c.notes.append("%s: TLC emitted %d assemblies (passed + single-check near misses), %d executed"
                        % (name, len(scn), len(sel)))
     for (name, expect) in asfounds:
+        t1 = time.time()
         asfound(c, name, expect)
+        tm["asfound:" + name] = round(time.time() - t1, 1)
     blocks += list(extra)
     scnf = os.path.join(c.scratch, "scenarios.ndjson")
     write_scenarios(scnf, blocks)
     trace = os.path.join(c.scratch, "dpadv.ndjson")
+    t1 = time.time()
     c.run_driver(drv, ["-scn", scnf, "-out", trace] + list(flags), timeout=1800)
+    tm["driver"] = round(time.time() - t1, 1)
+    t1 = time.time()
     stats = validate(c, trace, pid)
+    tm["validate"] = round(time.time() - t1, 1)
+    c.notes.append("wall seconds per stage: %s" % json.dumps(tm))
     count(c, trace, nontrivial or (lambda e: True), abstract_shape)
     c.sample_trace(trace, nevents=3)
     c.assumptions += TRUSTED
